@@ -507,7 +507,26 @@ fn box_facts<T: Lay, N: ArrayLength>() -> BoxFacts {
             Err(_) => unreachable!(),
         }
     };
-    if !slice_aligned {
+    // a Vec made from the boxed array owns exactly [T; N]'s block: N elements of room, no more
+    let mut vec_ok = true;
+    {
+        let e: Box<GA<T, N>> = <Box<GA<T, N>> as GenericSequence<T>>::generate(|i| T::make(i as u8));
+        let v: Vec<T> = e.into_vec();
+        if sz > 0 && (v.capacity() != N::USIZE || v.len() != N::USIZE) {
+            vec_ok = false;
+        }
+        if std::hint::black_box(v.as_ptr() as usize) % align_of::<T>() != 0 {
+            vec_ok = false;
+        }
+        // back into a boxed array and dropped: under Miri the block is freed with [T; N]'s layout
+        match GA::<T, N>::try_from_vec(v) {
+            Ok(d) => {
+                let _ = look(&d);
+            }
+            Err(_) => unreachable!(),
+        }
+    }
+    if !slice_aligned || !vec_ok {
         stride_ok = false;
     }
     BoxFacts { addrs: [r0.0, r1.0, r2.0, r3.0], lens: [r0.1, r1.1, r2.1, r3.1], stride_ok, readback_ok }
